@@ -33,8 +33,9 @@ def make_class(spec):
         kw = {'persistent': p['persistent']}
         if p.get('default') is not None:
             kw['default'] = dtgen.to_internal(p['di'], p['default'])
-        ns[p['name']] = PersistentParam(f'persistent {p["name"]}', dt, readonly=False, **kw)
-        if p.get('write'):
+        # (a read-only persistent parameter is kept by the software alone: it has no write method at all)
+        ns[p['name']] = PersistentParam(f'persistent {p["name"]}', dt, readonly=bool(p.get('readonly')), **kw)
+        if p.get('write') and not p.get('readonly'):
             def wf(self, value, pname=p['name']):
                 self.hwlog.append((pname, value))
                 return value
@@ -79,7 +80,8 @@ class C17(Check):
             di = dtgen.gen_datainfo(rng, rng.choice([0, 1, 2]))
             params.append({'name': f'p{i}', 'di': di, 'default': dtgen.valid_wire(rng, di),
                            'persistent': rng.choice(['auto', 'auto', 'on']), 'write': rng.random() < 0.5,
-                           'given': dtgen.valid_wire(rng, di) if rng.random() < 0.2 else None})
+                           'given': dtgen.valid_wire(rng, di) if rng.random() < 0.25 else None,
+                           'readonly': rng.random() < 0.25})
         plain = []
         if rng.random() < 0.4:
             di = dtgen.gen_datainfo(rng, 0)
@@ -184,9 +186,12 @@ class C17(Check):
             raised = None
             try:
                 kind = op['kind']
-                if kind == 'set':
+                if kind == 'set' and not next(p for p in spec['params'] if p['name'] == op['p']).get('readonly'):
                     di = next(p['di'] for p in spec['params'] if p['name'] == op['p'])
                     getattr(mod, 'write_' + op['p'])(dtgen.to_internal(di, op['v']))
+                elif kind == 'set':
+                    di = next(p['di'] for p in spec['params'] if p['name'] == op['p'])
+                    setattr(mod, op['p'], dtgen.to_internal(di, op['v']))
                 elif kind == 'assign':
                     di = next(p['di'] for p in spec['params'] if p['name'] == op['p'])
                     setattr(mod, op['p'], dtgen.to_internal(di, op['v']))
